@@ -133,8 +133,10 @@ def load_known():
 
 
 def is_known(ctx, v):
+    import fnmatch
     for k in ctx.known:
-        if k['prop'] == ctx.prop and k['key'] == v.key and (k['obligation'] == v.obligation or k['obligation'] == '*'):
+        if k['prop'] == ctx.prop and fnmatch.fnmatchcase(v.key, k['key']) and \
+                (k['obligation'] == '*' or fnmatch.fnmatchcase(v.obligation, k['obligation'])):
             return k
     return None
 
